@@ -46,13 +46,17 @@ impl<'a> WriteToHeader for RawWrite<'a> {
 pub enum Op {
     /// `bitor`: obtain the two control bytes from the typed API (`Version::Two | Command::..`,
     /// `AddressFamily::.. | Protocol::..`) instead of passing the raw codes
-    New { vc: u8, afp: u8, bitor: bool },
-    With { vc: u8, tr: v2::Protocol, addr: v2::Addresses, bitor: bool },
+    /// bitor: 0 = raw codes, 1 = typed API as `Version | Command`, `AddressFamily | Protocol`,
+    /// 2 = typed API with the operands the other way round
+    New { vc: u8, afp: u8, bitor: u8 },
+    With { vc: u8, tr: v2::Protocol, addr: v2::Addresses, bitor: u8 },
     Reserve(usize),
     SetLen(Option<u16>),
     Write(Payload),
     /// a batch; `lazy` = handed over through an iterator adaptor that does not know its length
     Writes(Vec<Payload>, bool),
+    /// a batch given as runs (payload, how many times in a row): batches of tens of thousands of items
+    WritesRep(Vec<(Payload, usize)>, bool),
     WriteTlv(Kind, Vec<u8>),
     Build,
 }
@@ -180,6 +184,7 @@ pub fn op_json(op: &Op) -> Value {
         Op::SetLen(v) => json!({"op": "BSetLen", "v": v.map(|x| x as i64).unwrap_or(-1)}),
         Op::Write(p) => json!({"op": "BWrite", "p": payload_json(p)}),
         Op::Writes(ps, lazy) => json!({"op": "BWrites", "ps": ps.iter().map(payload_json).collect::<Vec<_>>(), "lazy": lazy}),
+        Op::WritesRep(runs, lazy) => json!({"op": "BWritesRep", "runs": runs.iter().map(|(p, n)| json!({"p": payload_json(p), "n": n})).collect::<Vec<_>>(), "lazy": lazy}),
         Op::WriteTlv(k, b) => json!({"op": "BTlv", "t": kind_json(k), "v": rl(b)}),
         Op::Build => json!({"op": "BBuild"}),
     }
@@ -187,12 +192,16 @@ pub fn op_json(op: &Op) -> Value {
 
 pub fn op_from(v: &Value) -> Op {
     match v["op"].as_str().unwrap() {
-        "BNew" => Op::New { vc: v["vc"].as_u64().unwrap() as u8, afp: v["afp"].as_u64().unwrap() as u8, bitor: v["bitor"].as_bool().unwrap_or(false) },
-        "BWith" => Op::With { vc: v["vc"].as_u64().unwrap() as u8, tr: tr_from(v["tr"].as_str().unwrap()), addr: addr_from(&v["a"]), bitor: v["bitor"].as_bool().unwrap_or(false) },
+        "BNew" => Op::New { vc: v["vc"].as_u64().unwrap() as u8, afp: v["afp"].as_u64().unwrap() as u8, bitor: bitor_from(&v["bitor"]) },
+        "BWith" => Op::With { vc: v["vc"].as_u64().unwrap() as u8, tr: tr_from(v["tr"].as_str().unwrap()), addr: addr_from(&v["a"]), bitor: bitor_from(&v["bitor"]) },
         "BReserve" => Op::Reserve(v["n"].as_u64().unwrap() as usize),
         "BSetLen" => Op::SetLen(match v["v"].as_i64().unwrap() { x if x < 0 => None, x => Some(x as u16) }),
         "BWrite" => Op::Write(payload_from(&v["p"])),
         "BWrites" => Op::Writes(v["ps"].as_array().unwrap().iter().map(payload_from).collect(), v["lazy"].as_bool().unwrap_or(false)),
+        "BWritesRep" => Op::WritesRep(
+            v["runs"].as_array().unwrap().iter().map(|r| (payload_from(&r["p"]), r["n"].as_u64().unwrap() as usize)).collect(),
+            v["lazy"].as_bool().unwrap_or(false),
+        ),
         "BTlv" => Op::WriteTlv(kind_from(&v["t"]), unrl(&v["v"])),
         _ => Op::Build,
     }
@@ -349,16 +358,25 @@ fn write_many(b: Builder, ps: &[Payload], lazy: bool) -> io::Result<Builder> {
 }
 
 /// The version-command byte through the typed API, when the code is a registered one.
-fn typed_vc(vc: u8) -> Option<u8> {
-    match vc {
-        0x20 => Some(v2::Version::Two | v2::Command::Local),
-        0x21 => Some(v2::Command::Proxy | v2::Version::Two),
-        _ => None,
+fn bitor_from(v: &Value) -> u8 {
+    match v {
+        Value::Bool(true) => 1,
+        Value::Number(n) => n.as_u64().unwrap_or(0) as u8,
+        _ => 0,
     }
 }
 
+fn typed_vc(vc: u8, order: u8) -> Option<u8> {
+    let cmd = match vc {
+        0x20 => v2::Command::Local,
+        0x21 => v2::Command::Proxy,
+        _ => return None,
+    };
+    Some(if order == 2 { cmd | v2::Version::Two } else { v2::Version::Two | cmd })
+}
+
 /// The family-transport byte through the typed API, when both codes are registered ones.
-fn typed_afp(afp: u8) -> Option<u8> {
+fn typed_afp(afp: u8, order: u8) -> Option<u8> {
     let fam = match afp >> 4 {
         0 => v2::AddressFamily::Unspecified,
         1 => v2::AddressFamily::IPv4,
@@ -372,20 +390,20 @@ fn typed_afp(afp: u8) -> Option<u8> {
         2 => v2::Protocol::Datagram,
         _ => return None,
     };
-    Some(if afp & 1 == 0 { fam | tr } else { tr | fam })
+    Some(if order == 2 { tr | fam } else { fam | tr })
 }
 
 fn construct(op: &Op) -> Builder {
     match op {
         Op::New { vc, afp, bitor } => {
-            if *bitor {
-                Builder::new(typed_vc(*vc).unwrap_or(*vc), typed_afp(*afp).unwrap_or(*afp))
+            if *bitor != 0 {
+                Builder::new(typed_vc(*vc, *bitor).unwrap_or(*vc), typed_afp(*afp, *bitor).unwrap_or(*afp))
             } else {
                 Builder::new(*vc, *afp)
             }
         }
         Op::With { vc, tr, addr, bitor } => {
-            Builder::with_addresses(if *bitor { typed_vc(*vc).unwrap_or(*vc) } else { *vc }, *tr, *addr)
+            Builder::with_addresses(if *bitor != 0 { typed_vc(*vc, *bitor).unwrap_or(*vc) } else { *vc }, *tr, *addr)
         }
         other => panic!("session must start with a constructor, got {:?}", other),
     }
@@ -397,6 +415,15 @@ fn apply(b: Builder, op: &Op) -> io::Result<Builder> {
         Op::SetLen(v) => Ok(b.set_length(*v)),
         Op::Write(p) => write_one(b, p),
         Op::Writes(ps, lazy) => write_many(b, ps, *lazy),
+        Op::WritesRep(runs, lazy) => {
+            let mut ps: Vec<Payload> = Vec::new();
+            for (p, n) in runs {
+                for _ in 0..*n {
+                    ps.push(p.clone());
+                }
+            }
+            write_many(b, &ps, *lazy)
+        }
         Op::WriteTlv(k, v) => match k {
             Kind::Raw(c) => b.write_tlv(*c, v.as_slice()),
             Kind::Named(t) => b.write_tlv(*t, v.as_slice()),
@@ -754,11 +781,11 @@ fn random_ctor(rng: &mut Rng, valid_only: bool) -> Op {
     let vc = if valid_only || rng.chance(3, 4) { 0x20 | rng.below(2) as u8 } else { rng.next() as u8 };
     if rng.chance(1, 2) {
         let afp = if valid_only || rng.chance(3, 4) { ((rng.below(4) as u8) << 4) | rng.below(3) as u8 } else { rng.next() as u8 };
-        Op::New { vc, afp, bitor: rng.chance(1, 2) }
+        Op::New { vc, afp, bitor: rng.below(3) as u8 }
     } else {
         let tr = *rng.pick(&[v2::Protocol::Unspecified, v2::Protocol::Stream, v2::Protocol::Datagram]);
         let fam = rng.below(4);
-        Op::With { vc, tr, addr: random_addr(rng, fam), bitor: rng.chance(1, 2) }
+        Op::With { vc, tr, addr: random_addr(rng, fam), bitor: rng.below(3) as u8 }
     }
 }
 
@@ -889,6 +916,41 @@ pub fn generate_builder(name: &str, count: usize, rng: &mut Rng, out: &mut dyn W
                 n += run_ops(&format!("bover-{}", i), &json!({"g": "bover"}), &ops, out);
             }
         }
+        // very large batches: tens of thousands of payloads that encode to nothing (empty slices,
+        // empty sections, unspecified addresses) around one or two that do, and long runs of
+        // one-byte payloads that hit the writer's limit - as slices and through lazy adaptors
+        "bbatch" => {
+            let empties = [Payload::Slice(vec![]), Payload::Tlvs(vec![], 0), Payload::Addr(v2::Addresses::Unspecified)];
+            let counts = [65535usize, 65536, 65551, 65552, 65553, 70000, 131072];
+            for i in 0..count {
+                let ctor = random_ctor(rng, false);
+                let mut ops = vec![ctor];
+                if rng.chance(1, 3) {
+                    ops.push(Op::SetLen(Some(*rng.pick(&[0u16, 4, 65535]))));
+                }
+                let e = empties[i % 3].clone();
+                let c = counts[(i / 3) % counts.len()];
+                let tail = match rng.below(4) {
+                    0 => Payload::Slice(b"tail".to_vec()),
+                    1 => Payload::Int { ty: "u16".into(), neg: false, mag: vec![0xAB, 0xCD] },
+                    2 => Payload::Tlv(random_kind(rng), vec![7; 3]),
+                    _ => Payload::Type(TYPES[rng.below(12) as usize].0),
+                };
+                let runs = match i % 5 {
+                    0 => vec![(e, c), (tail, 1)],
+                    1 => vec![(Payload::Slice(b"head".to_vec()), 1), (e, c), (tail, 1)],
+                    2 => vec![(e.clone(), c / 2), (tail.clone(), 1), (e, c / 2 + 7), (tail, 1)],
+                    3 => vec![(Payload::Int { ty: "u8".into(), neg: false, mag: vec![0x5A] }, c), (tail, 1)],
+                    _ => vec![(e, c)],
+                };
+                ops.push(Op::WritesRep(runs, i % 2 == 1));
+                if rng.chance(1, 2) {
+                    ops.push(Op::Write(Payload::Slice(b"after".to_vec())));
+                }
+                ops.push(Op::Build);
+                n += run_ops(&format!("bbatch-{}", i), &json!({"g": "bbatch"}), &ops, out);
+            }
+        }
         // pairs of sessions that differ only in reservations / batching
         "bpairs" => {
             for i in 0..count {
@@ -939,6 +1001,42 @@ pub fn generate_builder(name: &str, count: usize, rng: &mut Rng, out: &mut dyn W
                 let tag = json!({"g": "bwire"});
                 n += run_ops(&format!("bwire-{}", i), &tag, &ops, out);
                 maybe_parse_back(&format!("bwire-{}", i), &tag, &ops, out, &mut n);
+            }
+        }
+        // C07: one TLV per header for every type code (count >= 8448: all 256 codes, otherwise the
+        // registered codes and their neighbours plus a seed-shifted selection) x value lengths
+        // around the powers of two x the three ways of writing a TLV, parsed back
+        "btypes" => {
+            let lens = [0usize, 1, 2, 127, 128, 129, 255, 256, 257, 1024, 4096];
+            let mut grid: Vec<(u8, usize, usize)> = Vec::new();
+            let registered: Vec<u8> = TYPES.iter().map(|(t, _)| u8::from(*t)).collect();
+            let mut codes: Vec<u8> = if count >= 8448 { (0..=255u8).collect() } else {
+                let mut c = registered.clone();
+                for r in &registered { c.push(r.wrapping_add(1)); c.push(r.wrapping_sub(1)); }
+                c.extend_from_slice(&[0, 0x7f, 0x80, 0xff]);
+                for _ in 0..count / 33 { c.push(rng.next() as u8); }
+                c
+            };
+            codes.sort();
+            codes.dedup();
+            for c in &codes { for (li, _) in lens.iter().enumerate() { for path in 0..3usize { grid.push((*c, li, path)); } } }
+            let take = if count >= 8448 { grid.len() } else { count.min(grid.len()) };
+            // registered codes always come with every length through write_tlv; the rest is sampled
+            let mut chosen: Vec<(u8, usize, usize)> = Vec::new();
+            for c in &registered { for (li, _) in lens.iter().enumerate() { chosen.push((*c, li, 0)); } }
+            let step = grid.len() as f64 / take as f64;
+            let off = (rng.below(97) as f64) / 97.0 * step;
+            for i in 0..take { chosen.push(grid[((off + i as f64 * step) as usize).min(grid.len() - 1)]); }
+            for (i, (code, li, path)) in chosen.into_iter().enumerate() {
+                let fam = 1 + (i % 3) as u64;
+                let ctor = Op::With { vc: 0x20 + (i % 2) as u8, tr: tr_from(["Unspecified", "Stream", "Datagram"][i % 3]), addr: random_addr(rng, fam), bitor: (i % 3) as u8 };
+                let v = vec![(i % 251) as u8; lens[li]];
+                let kind = match registered.iter().position(|r| *r == code) { Some(k) if i % 2 == 0 => Kind::Named(TYPES[k].0), _ => Kind::Raw(code) };
+                let w = match path { 0 => Op::WriteTlv(kind, v), 1 => Op::Write(Payload::Tlv(kind, v)), _ => Op::Write(Payload::Pair(kind, v)) };
+                let ops = vec![ctor, w, Op::Build];
+                let tag = json!({"g": "bwire"});
+                n += run_ops(&format!("btypes-{}", i), &tag, &ops, out);
+                maybe_parse_back(&format!("btypes-{}", i), &tag, &ops, out, &mut n);
             }
         }
         // C13: parse a header, then rebuild it from the observed parts
@@ -992,10 +1090,16 @@ pub fn rebuild_sessions(sid: &str, input: &[u8], out: &mut dyn Write) -> usize {
         Err(_) => return n,
     };
     let (vc, afp) = (raw[12], raw[13]);
-    let ops = vec![Op::New { vc, afp, bitor: false }, Op::Write(Payload::Slice(ab.clone())), Op::Write(Payload::Slice(tb.clone())), Op::Build];
+    let ops = vec![Op::New { vc, afp, bitor: 0 }, Op::Write(Payload::Slice(ab.clone())), Op::Write(Payload::Slice(tb.clone())), Op::Build];
     n += run_ops_in(sid, &json!({"g": "rebuild", "mode": "raw", "of": sid}), &ops, out, false);
+    // the control bytes composed from the decoded typed parts (`version | command`,
+    // `protocol | family`), in either operand order
+    for order in [1u8, 2u8] {
+        let ops = vec![Op::New { vc, afp, bitor: order }, Op::Write(Payload::Slice(ab.clone())), Op::Write(Payload::Slice(tb.clone())), Op::Build];
+        n += run_ops_in(sid, &json!({"g": "rebuild", "mode": "typed", "of": sid}), &ops, out, false);
+    }
     if items.iter().all(|r| r.is_ok()) {
-        let mut ops = vec![Op::New { vc, afp, bitor: false }, Op::Write(Payload::Slice(ab.clone()))];
+        let mut ops = vec![Op::New { vc, afp, bitor: 0 }, Op::Write(Payload::Slice(ab.clone()))];
         for r in &items {
             let (k, v) = r.clone().unwrap();
             ops.push(Op::WriteTlv(Kind::Raw(k), v));
@@ -1005,11 +1109,11 @@ pub fn rebuild_sessions(sid: &str, input: &[u8], out: &mut dyn Write) -> usize {
     }
     {
         // the section handed over as the value `header.tlvs()` after a peek at its first item
-        let ops = vec![Op::New { vc, afp, bitor: false }, Op::Write(Payload::Slice(ab.clone())), Op::Write(Payload::Tlvs(tb.clone(), 1)), Op::Build];
+        let ops = vec![Op::New { vc, afp, bitor: 0 }, Op::Write(Payload::Slice(ab.clone())), Op::Write(Payload::Tlvs(tb.clone(), 1)), Op::Build];
         n += run_ops_in(sid, &json!({"g": "rebuild", "mode": "peek", "of": sid}), &ops, out, false);
     }
     if !matches!(addresses, v2::Addresses::Unspecified) {
-        let ops = vec![Op::With { vc, tr: protocol, addr: addresses, bitor: false }, Op::Write(Payload::Tlvs(tb.clone(), 0)), Op::Build];
+        let ops = vec![Op::With { vc, tr: protocol, addr: addresses, bitor: 0 }, Op::Write(Payload::Tlvs(tb.clone(), 0)), Op::Build];
         n += run_ops_in(sid, &json!({"g": "rebuild", "mode": "addr", "of": sid}), &ops, out, false);
     }
     n
